@@ -189,6 +189,44 @@ def run(ctx, prop_id: str) -> int:
                         ctx.ob("ITER-1", f"{fi.qualname}: self.{st.targets[0].attr} is stored as data, not as a one-shot iterator",
                                False, f"self.{st.targets[0].attr} = {bad}: exhausted after the first walk, compared and hashed "
                                f"by identity; materialise it with tuple(...) / list(...)", fi, st.lineno, alias_exact=True)
+    # FWD-1: a parameter the function never reads, while it calls a package function that has a parameter of the same
+    # name with a default and does not pass it: the caller's value is silently replaced by the callee's default
+    # (a refactoring that moved the body into a helper and forgot to forward one argument)
+    by_name: Dict[str, list] = {}
+    for fi in list(p.functions.values()) + [m for c in p.classes.values() for m in c.methods.values()]:
+        if not isinstance(fi.node, ast.Lambda):
+            by_name.setdefault(fi.name, []).append(fi)
+    for mod in p.modules.values():
+        if not any(f.endswith(os.path.basename(mod.path)) for f in files):
+            continue
+        fis = list(mod.functions.values()) + [m for c in p.classes.values() if c.module == mod.name for m in c.methods.values()]
+        for fi in fis:
+            if isinstance(fi.node, ast.Lambda) or fi.is_abstract:
+                continue
+            reads = {n_.id for n_ in ast.walk(fi.node) if isinstance(n_, ast.Name) and isinstance(n_.ctx, ast.Load)}
+            unused = [q.name for q in fi.params if q.name not in ("self", "cls") and q.name not in reads
+                      and q.kind in ("pos", "kwonly")]
+            if not unused:
+                continue
+            for call_ in ast.walk(fi.node):
+                if not isinstance(call_, ast.Call):
+                    continue
+                nm = call_.func.id if isinstance(call_.func, ast.Name) else (
+                    call_.func.attr if isinstance(call_.func, ast.Attribute) else None)
+                cands = by_name.get(nm or "", [])
+                if len(cands) != 1 or cands[0] is fi or any(isinstance(a_, ast.Starred) for a_ in call_.args) or \
+                        any(k_.arg is None for k_ in call_.keywords):
+                    continue
+                g = cands[0]
+                gp = [q for q in g.params if q.name not in ("self", "cls")]
+                bound = {q.name for q in gp[:len(call_.args)] if q.kind == "pos"} | {k_.arg for k_ in call_.keywords}
+                for u in unused:
+                    tgt = [q for q in gp if q.name == u]
+                    if tgt and tgt[0].has_default and u not in bound:
+                        ctx.ob("FWD-1", f"{fi.qualname}: parameter '{u}' reaches the helper that takes it", False,
+                               f"'{u}' is never read in {fi.name}, and its call of {g.qualname} (line {call_.lineno}) leaves the "
+                               f"helper's own '{u}' at its default: the caller's value is ignored", fi, call_.lineno,
+                               alias_exact=True)
     ctx.ob("CLO-1", f"{prop_id}: functions of the anchored files scanned for late-binding closures and iterator-valued fields",
            True, f"{n} functions", nontrivial=False)
     return n
